@@ -104,9 +104,10 @@ class Check(object):
     def require_instances(self, rid, floor):
         n = self.rules.get(rid, {}).get("instances", 0)
         if n < floor:
-            from .index import AnalysisError
-            raise AnalysisError("rule %s matched %d instance(s), below the confirmed floor %d "
-                                "(the construct it is keyed on is no longer recognised)" % (rid, n, floor))
+            if not hasattr(self, "floor_errors"):
+                self.floor_errors = []
+            self.floor_errors.append("rule %s matched %d instance(s), below the confirmed floor %d "
+                                     "(the construct it is keyed on is no longer recognised)" % (rid, n, floor))
 
     def absorb(self, interp):
         st = interp.stats
@@ -197,6 +198,11 @@ class Check(object):
                 rid, r["instances"], r["obligations"], r["discharged"], r["what"][:90]))
         for ln in lines:
             print(ln)
+        floor_errors = getattr(self, "floor_errors", [])
+        if floor_errors and not unlisted:
+            for e in floor_errors:
+                print("ANALYSIS-ERROR property=%s: %s" % (self.prop, e))
+            return 2
         if self.imprecise and not unlisted:
             for f in self.imprecise[:10]:
                 print("ANALYSIS-ERROR imprecise: rule %s in %s: %s" % (f.rule, f.function, f.text))
